@@ -1,6 +1,6 @@
 """C09 SuperscalarHash programs are well-formed and spec-conformant for every key."""
 import astq
-from rules import a64hsem, a64sem, jitcross, rvhsem, spec, sshash, x86hsem
+from rules import a64hsem, a64sem, jitcross, rv64, rvhsem, spec, sshash, x86hsem
 
 LEVEL = 'other'
 TECHNIQUE = ('exhaustiveness over the instruction enumeration in generator / interpreter / x86 emitter, guard-dominates-choice rules for the operand constraints of Table 6.1.1, CFG dominance for the size bound, table agreement with spec 6.1-6.3, known-bits on emitted immediates'
@@ -33,3 +33,5 @@ def run(ctx, R):
     x86hsem.rule_ss_hsem(ctx, R)
     a64hsem.rule_ss_hsem(ctx, R)
     rvhsem.rule_ss_hsem(ctx, R)
+    rvhsem.rule_rvv_ss_hsem(ctx, R)
+    rv64.rule_rvv_ss_rcp(ctx, R)
